@@ -700,6 +700,11 @@ func init() {
 		}
 		fr.r.onceDone[p] = true
 		_ = st
+		// what runs under a Once happens before every return of Do: for the
+		// lock-set view of the traces it is initialisation, not a shared access
+		saved := fr.r.tracing
+		fr.r.tracing = false
+		defer func() { fr.r.tracing = saved }()
 		fr.r.call(fr, token.NoPos, args[1], nil)
 		return nil
 	}
